@@ -196,7 +196,11 @@ class Ctx:
         ev = {"property_id": self.pid, "tier": self.tier, "seed": self.seed, "level": self.level,
               "coverage": cov, "assumptions": self.assumptions, "wall_s": round(time.time() - self.t0, 2),
               "violations": nviol}
-        with open(os.path.join(VERIF, "evidence", self.pid + ".json"), "w") as f:
+        # runs against a scratch copy of the repository (bin/seedtest, bin/benigntest) must not overwrite the evidence of
+        # /repo: they set VERIF_EVIDENCE_DIR
+        evdir = os.environ.get("VERIF_EVIDENCE_DIR") or os.path.join(VERIF, "evidence")
+        os.makedirs(evdir, exist_ok=True)
+        with open(os.path.join(evdir, self.pid + ".json"), "w") as f:
             json.dump(ev, f, indent=1, default=str)
 
 
